@@ -207,7 +207,7 @@ def gen_scenario(rng, fam):
         else:
             offset = mols[-1]['atoms'][-1]['resid']          # what an earlier merge of the chains would have done
         mol = mols[-1]
-        old = rng.randint(1, 12) if not (RESID0 and c and rng.random() < 0.5) else rng.randint(-2, 0)
+        old = rng.randint(1, 12) if not (RESID0 and c and new_mol and rng.random() < 0.5) else rng.randint(-2, 0)
         start = [rng.randint(-300, 300) for _ in range(3)] if not bb_positions else \
             [x + int(round(u * rng.uniform(450, 800))) for x, u in zip(rng.choice(bb_positions), _unit(rng))]
         pos_bb = start
@@ -280,7 +280,9 @@ def gen_scenario(rng, fam):
         for _ in range(rng.randint(1, 4) if fam == 'absent' else rng.randint(0, 2)):
             r = rng.choice(residues)
             kind = rng.choice(['resid', 'chain', 'both'])
-            ghost = [rng.randint(-3, 40), r['chain']] if kind == 'resid' else \
+            elsewhere = [q['old'] for q in residues if q['chain'] != r['chain']]      # a resid only other chains have
+            ghost = [rng.choice(elsewhere) if elsewhere and rng.random() < 0.6 else rng.randint(-3, 40), r['chain']] \
+                if kind == 'resid' else \
                 [r['old'], rng.choice(['Z', 'D', ''])] if kind == 'chain' else [rng.randint(50, 60), 'Z']
             if (ghost[1], ghost[0]) in present:
                 continue
